@@ -238,7 +238,8 @@ Section Kinds.
                 inversion Er; subst. unfold mk, is_kind; simpl. neutral_neq.
               * destruct (oc_get_ident c callee s) as [[nid|] s1']; [|discriminate].
                 destruct (oc_assigns s1'); [discriminate|].
-                inversion Er; subst. unfold mk, is_kind; simpl. neutral_neq.
+                destruct (is_kind KSuperProp _);
+                  inversion Er; subst; unfold mk, is_kind; simpl; neutral_neq.
             + inversion Er; subst. unfold mk, is_kind; simpl. neutral_neq.
           - unfold oc_member_from_base in Er.
             destruct base as [[kk lo hi| | | | | |] bcs]; try discriminate.
